@@ -531,6 +531,13 @@ func ReadEmitted(w *vt.W, path string) int {
 			ev["recs"] = e.Expect
 		}
 		w.Emit(ev)
+		// records of the bounded model through the real writers as well (C01/C02), when the file as first
+		// written carries the full records
+		full := e.Fmt != "bed" || (num(e.Cfg["r"]) == num(e.Cfg["w"]) && num(e.Cfg["w"]) == num(e.Cfg["m"]))
+		if e.Valid && e.Steps == 0 && !e.CRLF && full {
+			wt, ns, werr := WriteAll(e.Fmt, e.Cfg, e.Expect, n)
+			w.Emit(vt.Ev{"op": "write", "fmt": e.Fmt, "cfg": e.Cfg, "recs": e.Expect, "text": vt.Ints(wt), "ns": ns, "err": werr})
+		}
 		n++
 	}
 	return n
